@@ -45,6 +45,8 @@ pub fn spaces(tier: &str) -> Vec<CSpace> {
     v.push(CSpace { name: "names-variant".into(), gen: Box::new(move |ctx| crate::names::gen_variant(ctx, k + 1)), bound: if quick { Some(3) } else { Some(7) } });
     v.push(CSpace { name: "names-type".into(), gen: Box::new(move |ctx| crate::names::gen_type(ctx, 2)), bound: if quick { Some(4) } else { None } });
     v.push(CSpace { name: "names-parent".into(), gen: Box::new(move |ctx| crate::names::gen_parent(ctx, 2)), bound: if quick { Some(5) } else { None } });
+    v.push(CSpace { name: "allow-unknown".into(), gen: Box::new(|ctx| crate::names::gen_allow_unknown(ctx)), bound: if quick { Some(5) } else { None } });
+    v.push(CSpace { name: "faulty".into(), gen: Box::new(|ctx| crate::names::gen_faulty(ctx)), bound: if quick { Some(3) } else { None } });
     v.push(CSpace { name: "feat-enum-prim".into(), gen: Box::new(|ctx| gen_enum_prim(ctx, &FOpts { max_members: 3, two_counterparts: false, force_two: false, full_menu: true, params: false })), bound: None });
     v
 }
@@ -53,6 +55,7 @@ pub fn spaces(tier: &str) -> Vec<CSpace> {
 pub fn spaces_2cp(tier: &str) -> Vec<CSpace> {
     let quick = tier == "quick";
     vec![
+        CSpace { name: "dedication".into(), gen: Box::new(|ctx| crate::names::gen_dedication(ctx)), bound: if quick { Some(4) } else { Some(6) } },
         CSpace {
             name: "feat-struct-2cp".into(),
             gen: Box::new(move |ctx| gen_struct(ctx, &FOpts { max_members: if quick { 2 } else { 3 }, two_counterparts: true, force_two: true, full_menu: true, params: false })),
